@@ -10,7 +10,7 @@ from .. import recon as R
 ID = "C06"
 LEVEL = "proof"
 PROP_FILE = "Properties/C06.v"
-PROOF_FILES = ["Gen/EvalGen.v", "Proofs/EvalGenProofs.v", "Gen/SubseqGen.v", "Proofs/SubseqGenProofs.v", "Proofs/ChargedEdgesProofs.v", "Proofs/LabelCostProofs.v", "Proofs/ReconProofs.v", "Proofs/PathFacts.v", "Proofs/SubseqProofs.v",
+PROOF_FILES = ["Proofs/ReviewCLabelCost.v", "Gen/EvalGen.v", "Proofs/EvalGenProofs.v", "Gen/SubseqGen.v", "Proofs/SubseqGenProofs.v", "Proofs/ChargedEdgesProofs.v", "Proofs/LabelCostProofs.v", "Proofs/ReconProofs.v", "Proofs/PathFacts.v", "Proofs/SubseqProofs.v",
                "Model/Recon.v", "Model/Subseq.v", "Base/PathB.v", "Base/Ext.v"]
 TRUSTED = ["translator translator/pyfun.py + the type table in translator/eval_gen.py: node_event, _cost_rec, cost and the labelled cost functions of model/reconciliation.py are translated statement by statement into Gen/EvalGen.v on every run and proved equal to Model/Recon.v (object nodes = identifiers, node-keyed dictionaries = total functions, the species LCA structure = a parameter instantiated with the path operations)",
            "model Model/Recon.v of node_event/_cost_rec/_ordered_labeling_cost/_unordered_labeling_cost over bool root paths (C17 ties ancestry to the code, C18 the masks)"]
